@@ -52,12 +52,15 @@ SCHEMAS = [
     # include fields at the root (two), in a nested scope and in a scope nested in that
     sch(("a", ANY), ("n", INT), ("inc", inc("$/A")), ("inc2", inc("")),
         ("sub", sch(("a", ANY), ("n", INT), ("inc", inc("$/A")), ("deep", sch(("a", ANY), ("inc", inc("$/B")))))),
-        ("other", sch(("b", ANY), ("m", INT)))),
+        ("other", sch(("b", ANY), ("m", INT), ("inc", inc("~/c"))))),  # start directory below the home directory
     # no include at all: only the parser can fail
     sch(("a", ANY), ("n", INT), ("sub", sch(("a", ANY), ("deep", sch(("n", INT)))))),
 ]
 
-FS = [[chars(d), {"k": "dir"}] for d in ("$/A", "$/B", "$/W", "$/A/d")] + [
+FS = [[chars(d), {"k": "dir"}] for d in ("$/A", "$/B", "$/W", "$/A/d", "$/H", "$/H/c", "$/H/c/d")] + [
+    [chars("$/H/c/good"), {"k": "file", "v": D([("b", I(107))])}],
+    [chars("$/H/c/bad"), {"k": "unparseable"}],
+    [chars("$/H/c/locked"), {"k": "unreadable"}],
     [chars("$/A/good"), {"k": "file", "v": D([("a", I(100)), ("sub", D([("a", I(101))]))])}],
     [chars("$/W/good2"), {"k": "file", "v": D([("n", I(102))])}],
     [chars("$/B/good"), {"k": "file", "v": D([("a", I(103))])}],
@@ -98,6 +101,9 @@ def failing_documents(fmt):
         if label not in ("chain-then-missing", "nested-then-missing", "missing-elsewhere"):
             docs.append(("nested:" + label, {"k": "tree", "v": D(other + [("sub", D([("a", I(4)), ("inc", name)]))])}))
             docs.append(("after-include:" + label, {"k": "tree", "v": D([("inc", S("good"))] + other + [("sub", D([("a", I(4)), ("deep", D([("a", I(6)), ("inc", S("../A/" + "".join(name["s"])) if name["t"] == "str" and name["s"] and name["s"][0] != "$" else name)]))]))])}))
+    for label, name in BAD_NAMES[:9]:
+        if label not in ("missing-elsewhere",):
+            docs.append(("home:" + label, {"k": "tree", "v": D([("a", I(1)), ("n", I(2)), ("other", D([("b", I(3)), ("inc", name)]))])}))
     docs.append(("root:second-include-missing", {"k": "tree", "v": D([("inc", S("good")), ("inc2", S("zz"))] + other)}))
     if fmt in ("json", "yaml", "pickle"):
         docs.append(("root:not-a-map", {"k": "tree", "v": D(other + [("inc", S("list"))])}))
